@@ -10,6 +10,7 @@ from hypothesis import strategies as st
 
 from .. import history as H
 from ..common import cedge, dc, dedupe, permuted
+from ..common import nodes_with_metadata
 from ..engine import Clause, Violation, require
 
 ASSUMPTIONS = [
@@ -245,7 +246,7 @@ def observe(h, U, probes, real):
         nmeta[n] = dc(h.get_node_metadata(n))
     o["get_incident_edges"], o["get_neighbors"], o["degree"] = inc, nei, deg
     o["measures.degree"], o["is_isolated"], o["node_meta"] = mdeg, iso, nmeta
-    o["nodes_meta"] = {k: dc(v) for k, v in h.get_nodes(metadata=True).items()}
+    o["nodes_meta"] = {k: dc(v) for k, v in nodes_with_metadata(h).items()}
     o["degree_sequence"] = {None: dict(h.degree_sequence())}
     o["degree_distribution"] = {None: dict(h.degree_distribution())}
     o["measures.degree_sequence"] = dict(m_dseq(h))
@@ -291,6 +292,8 @@ class TemporalAdapter(H.Adapter):
         return [r for i, r in enumerate(es) if i == 0 or valid_time(r["t"])]
 
     def ambiguous_weighted_batch(self, es):
+        if self.permuted_repeat(es):
+            return True
         seen = {}
         for r in es:
             tok = tuple(r["e"])
@@ -432,11 +435,7 @@ class TemporalAdapter(H.Adapter):
                         lambda: "aggregate(%d) window %d: nodes %r, expected all nodes %r"
                         % (width, kidx, sorted(g.get_nodes(), key=repr),
                            sorted(model.nodes, key=repr)), key="aggregate-nodes")
-                for n, meta in model.nodes.items():
-                    require(g.get_node_metadata(n) == meta,
-                            lambda: "aggregate(%d) window %d: metadata of node %r is %r, expected %r"
-                            % (width, kidx, n, g.get_node_metadata(n), meta),
-                            key="aggregate-node-metadata")
+                # (node metadata inside the windows: not claimed -- 'contain all nodes')
                 require(g.is_weighted() == model.weighted, "aggregated weightedness differs")
                 if repeat:
                     ctx.label("aggregate_window_with_repeat")
